@@ -9,9 +9,10 @@
    operations of one key, or the same operation twice, in one request), exactly MaxDup
    re-deliveries of already delivered operations, interleaved with NLocal local writes
    (DB.Set/DB.Delete on the host, first counter value c0 in C0s) and, when LateSub, the
-   moment two more subscribers attach.  Each step records what AspenKVOps!FPSeq (the
-   filterPersist rule) computes: accepted / rejected partition in order, the engine
-   afterwards, and the operations each kind of subscriber is shown.
+   moment two more subscribers attach, and with exactly MaxFail requests whose ingress
+   transaction fails to commit (SyncFail; their operations must be delivered again
+   later).  Each step records what AspenKVOps!FPSeq (the filterPersist rule) computes:
+   accepted / rejected partition in order, the engine afterwards, and the operations each kind of subscriber is shown.
 
    Projection used by the harness: engine digest (ver - base, lh, var) + value token
    identity per key; accepted = operations handed to observers (raw TxRequest
@@ -19,10 +20,11 @@
    sender; base = real counter value at history start - c0.                           *)
 EXTENDS AspenKVOps, TLC, Json, FiniteSetsExt, Randomization
 
-CONSTANTS Host, Remote, Key, GVers, PoolSize, NPools, MaxDup, MaxBatch, NLocal, C0s, LateSub
+CONSTANTS Host, Remote, Key, GVers, PoolSize, NPools, MaxDup, MaxBatch, NLocal, C0s, LateSub,
+          MaxFail      \* requests per history whose ingress transaction fails to commit (0 or 1)
 
-VARIABLES pool, rem, extra, e, c, locals, late, delivered, hist
-gvars == <<pool, rem, extra, e, c, locals, late, delivered, hist>>
+VARIABLES pool, rem, extra, e, c, locals, late, delivered, fails, hist
+gvars == <<pool, rem, extra, e, c, locals, late, delivered, fails, hist>>
 
 Universe == [k : Key, ver : GVers, lh : Remote, var : {"set", "del"}]
 ValidPool(P) == \A a, b \in P : (a.k = b.k /\ a.ver = b.ver /\ a.lh = b.lh) => a = b
@@ -43,6 +45,7 @@ GInit ==
     /\ locals = NLocal
     /\ late = FALSE
     /\ delivered = {}
+    /\ fails = MaxFail
     /\ hist = <<[a |-> "init", host |-> Host, c0 |-> c, late |-> LateSub]>>
 
 (* Deliver one TxRequest.  First deliveries use `rem`, re-deliveries of an operation
@@ -61,7 +64,27 @@ Sync(b) ==
        /\ delivered' = delivered \cup SeqToSet(b)
        /\ hist' = Append(hist, [a |-> "sync", from |-> b[1].lh, ops |-> b, acc |-> r.acc,
                                 rej |-> r.rej, eng |-> r.eng, p |-> r.acc, f |-> r.acc])
-       /\ UNCHANGED <<pool, c, locals, late>>
+       /\ UNCHANGED <<pool, c, locals, late, fails>>
+
+(* A TxRequest whose ingress transaction FAILS TO COMMIT (storage fault; the harness arms a
+   fault-injecting engine wrapper for exactly this commit).  filter_persist.go as written:
+   xkv.WithTx returns the commit error, `if err == nil && !accepted.empty()` routes nothing
+   downstream - no subscriber is shown anything, nothing enters the gossip store - and the
+   engine is unchanged.  The rejected partition was computed while the transaction was
+   being filled (reads see the transaction's own earlier writes) and is still fed back.
+   The operations count as NOT delivered: `rem`, `extra` and `delivered` are unchanged, so
+   Terminal still forces a later real delivery of each of them (the gossip redelivery).   *)
+SyncFail(b) ==
+    LET used(o) == Count(b, o)
+        over == [o \in pool |-> IF used(o) > rem[o] THEN used(o) - rem[o] ELSE 0]
+        RECURSIVE Sum(_)
+        Sum(S) == IF S = {} THEN 0 ELSE LET x == CHOOSE x \in S : TRUE IN over[x] + Sum(S \ {x})
+        r == FPSeq(e, b, <<>>, <<>>)
+    IN /\ fails > 0 /\ fails' = fails - 1
+       /\ Sum(pool) <= extra                \* a request Sync could also have delivered
+       /\ hist' = Append(hist, [a |-> "syncfail", from |-> b[1].lh, ops |-> b, acc |-> <<>>,
+                                rej |-> r.rej, eng |-> e, p |-> <<>>, f |-> <<>>])
+       /\ UNCHANGED <<pool, rem, extra, e, c, locals, late, delivered>>
 
 Local(k, var) ==
     /\ locals > 0 /\ locals' = locals - 1
@@ -76,18 +99,18 @@ Local(k, var) ==
        ELSE /\ hist' = Append(hist, [a |-> "local", k |-> k, var |-> var, res |-> "forward",
                                      ver |-> 0, to |-> at, eng |-> e, p |-> <<>>, f |-> <<>>])
             /\ UNCHANGED <<c, e, delivered>>
-    /\ UNCHANGED <<pool, rem, extra, late>>
+    /\ UNCHANGED <<pool, rem, extra, late, fails>>
 
 SubLate ==
     /\ LateSub /\ ~late /\ late' = TRUE
     /\ hist' = Append(hist, [a |-> "sub"])
-    /\ UNCHANGED <<pool, rem, extra, e, c, locals, delivered>>
+    /\ UNCHANGED <<pool, rem, extra, e, c, locals, delivered, fails>>
 
-Terminal == (\A o \in pool : rem[o] = 0) /\ extra = 0 /\ locals = 0 /\ (LateSub => late)
+Terminal == (\A o \in pool : rem[o] = 0) /\ extra = 0 /\ locals = 0 /\ (LateSub => late) /\ fails = 0
 
 GNext ==
     /\ ~Terminal
-    /\ \/ \E b \in Batches : Sync(b)
+    /\ \/ \E b \in Batches : Sync(b) \/ SyncFail(b)
        \/ \E k \in Key, var \in {"set", "del"} : Local(k, var)
        \/ SubLate
 
